@@ -47,6 +47,7 @@ __all__ = [
     "is_typed_dict",
     "is_named_tuple",
     "is_optional",
+    "is_union_with_none",
     "is_union",
     "not_none_type_arg",
     "is_type_var",
@@ -370,6 +371,13 @@ def is_optional(
         if resolved_type_params.get(arg, arg) is NoneType:
             return True
     return False
+
+
+def is_union_with_none(typ: Type) -> bool:
+    # e.g. Union[int, str, None], which is not Optional[...] but nullable
+    if is_annotated(typ):
+        typ = get_type_origin(typ)
+    return is_union(typ) and NoneType in get_args(typ)
 
 
 def is_annotated(typ: Type) -> bool:
